@@ -310,6 +310,10 @@ class Run(object):
                     self.next_kind = e["k"]
                     p.queue_command(text)
             elif a == "GiveUp":
+                # (a caller that had not looked at the outcome yet does so as it gives up)
+                for d, serial in [x for x in self.unattached if x[1] == e["c"]]:
+                    d.addCallbacks(self._ok, self._err, callbackArgs=(serial,), errbackArgs=(serial,))
+                self.unattached = [x for x in self.unattached if x[1] != e["c"]]
                 self.defs[e["c"]].cancel()
             elif a == "AddL":
                 p.add_event_listener(e["n"], self.listener(e["l"], e["n"]))
